@@ -22,6 +22,11 @@ for m in ('822', '5321', '5322'):
         KIND['email_%s_%s' % (m, pth)] = [('email' + m, ['0']), ('email' + m, ['1'])]
 
 
+for pth in ('host', 'literal'):
+    for sfx in ('', '@idn', '@idnkit'):
+        KIND['email_6531_%s%s' % (pth, sfx)] = [('email6531', ['0']), ('email6531', ['1'])]
+
+
 def build_oracle(work):
     d = os.path.join(work, 'oracle')
     exe = os.path.join(d, 'oracle')
